@@ -54,6 +54,8 @@ class Contract:
     witness: str | None = None  # name of a native witness builder in specs (optional)
     typevars: list[str] = field(default_factory=list)  # generic kind variables (instantiated per call site)
     witnesses: dict[str, tuple] = field(default_factory=dict)  # name -> (ghost variable, kind): existential ghost lists
+    native_ensures: dict[str, str | None] = field(default_factory=dict)  # label -> native variant of a clause (None: skip)
+    locals: dict[str, str] = field(default_factory=dict)  # kind hints for locals initialised with empty containers
 
     @property
     def srcname(self) -> str:
